@@ -2,8 +2,8 @@
 
 (a) confinement.  TLC exhausts specs/localfs/LocalFSKeys.tla (sanitizePath / validatePath as written,
     character level, plus the manifest / edge-sync validators) over every key of <= MaxLen characters
-    of {"/", ".", NUL, "\\", other}; ResolvedInside must hold; StagingInside / ManifestStagingInside are
-    evaluated as candidates.  (G) every enumerated key (two concrete spellings each), and hand-made +
+    of {"/", ".", NUL, "\\", other}; ResolvedInside, StagingInside, ManifestStagingInside must hold (the model of the
+    backend as written before /repo 814856a is kept as a negative control that TLC must reject).  (G) every enumerated key (two concrete spellings each), and hand-made +
     seeded random byte strings, go through the real LocalBackend operations and the real validators;
     the oracle is the real file system (a scratch grandparent/parent/root tree is re-listed after
     every operation) and the absolute paths the backend returns.
@@ -32,13 +32,19 @@ def run(ctx):
     n_alias = sum(1 for k in keys if k["alias"])
     if not n_acc or n_acc == len(keys) or not n_alias:
         raise InfraError("vacuous key model: accepted=%d of %d, aliases=%d" % (n_acc, len(keys), n_alias))
-    cands = {}
-    for cfg, inv in (("Keys_staging.cfg", "StagingInside"), ("Keys_manifest.cfg", "ManifestStagingInside")):
+    # negative controls: the model of LocalBackend as first written (root-alias keys accepted by the object operations)
+    # must be rejected by TLC
+    ncs = {}
+    for cfg, inv in (("Keys_NC_staging.cfg", "StagingInside"), ("Keys_NC_manifest.cfg", "ManifestStagingInside")):
         r = ctx.tlc("localfs", "LocalFSKeys", cfg, timeout=600, workers=4, allow_violation=True)
-        cands[inv] = "counterexample (candidate)" if r.violated else "holds"
+        if r.violated != inv:
+            raise InfraError("negative control %s was not rejected by TLC (violated=%s)" % (cfg, r.violated))
+        ncs[cfg] = "rejected: " + inv
+    n_obj = sum(1 for k in keys if k["obj"])
     ctx.note("tlc_keys", {"cfg": "Keys_Gen_%s.cfg" % size, "distinct": kg.distinct, "generated": kg.generated, "depth": kg.depth,
-                          "keys": len(keys), "accepted": n_acc, "root_alias": n_alias,
-                          "invariants_holding": ["ResolvedInside", "SyncNeverAlias"], "candidates_on_as_built_model": cands})
+                          "keys": len(keys), "accepted_by_validatePath": n_acc, "root_alias": n_alias, "accepted_by_object_operations": n_obj,
+                          "invariants_holding": ["ResolvedInside", "StagingInside", "ManifestStagingInside", "SyncNeverAlias"],
+                          "negative_controls": ncs})
     # ------------------------------------------------------------------ (b) model
     mc = ctx.tlc("localfs", "LocalFS", "MC_%s.cfg" % size, coverage=True, timeout=900, workers=4)
     for a in ("Open", "WriteChunk", "Close", "Rename", "Crash"):
